@@ -23,7 +23,7 @@ def extra_patterns():
             mk([(L('l'), L('d')), star]), mk([(L('l'), L('d')), gs]), mk([gs, (L('l'), L('f'))]), mk([(L('d'),), (L('u'), L('p')), star]), mk([gs, (L('x'),)]), mk([gs, (L('t'),)]),
             mk([(L('S'), L('u'), L('b')), star]), mk([(L('s'), L('u'), L('b')), (('star',), L('.'), L('t'), L('x'), L('t'))]), mk([gs, star], trail=True),
             mk([(L('.'), ('star',)),]), mk([(L('.'), ('star',)), star]), mk([gs, (L('.'), ('star',))]), mk([(L('a'),), (L('r'),), gs]), mk([(L('a'),), (L('l'), L('r')), star]),
-            mk([(L('s'), L('u'), L('b')), star, (L('q'),)]), mk([(L('s'), L('u'), L('b')), (L('d'),), (L('q'),)]),
+            mk([(L('s'), L('u'), L('b')), star, (L('q'),)]), mk([(L('s'), L('u'), L('b')), (L('d'),), (L('q'),)]), mk([(L('S'), L('u'), L('b')), (L('d'),), star]), mk([(L('S'), L('u'), L('b')), (L('D'),), (L('q'),)]),
             mk([(L('x'), ('esc', '\\'), L('y'))]), mk([(star[0], ('esc', '\\'), star[0])]), mk([(L('q'), ('esc', '\\')), star]), mk([(L('x'), ('esc', '\\')), (L('y'),)]), mk([(L('a'), ('esc', '*'), L('b'))]),
             mk([(('ext', '?', ((L('a'),),)), ('star',))]), mk([star, (('ext', '@', ((L('a'),), (L('e'),))),), star])]
 
